@@ -229,6 +229,11 @@ func c08Check(st *msState, s *vsched.Sched, tr *vsched.Trace) (string, []vsched.
 			}
 		}
 	}
+	// no thread is inside the muxer any more (finished, or parked on a condition variable without the lock): a lock that
+	// is still held was left behind by a handler or by the writer
+	for _, h := range s.HeldLocks() {
+		add("lock-leak", "lock still held at the end of the execution: "+h)
+	}
 	bodies := map[string][]byte{} // media bytes per URI: immutable within the execution
 	var ob strings.Builder
 	perThread := map[string][]*msReqLog{}
